@@ -372,10 +372,9 @@ func explainRows(db *MetricDB, calls []recCall) []string {
 					cands = append(cands, cand{append(append([]string{}, names...), n), prefilter(base, h.Step, h.Range)})
 				}
 			}
+			add(s.Samples)
 			if startDropped {
 				add(noStart, "window_start_exclusive")
-			} else {
-				add(s.Samples)
 			}
 			found := false
 			for _, cd := range cands {
